@@ -49,6 +49,8 @@ pub const CL: Sym = Sym::Lit("CL", ")");
 pub const DOT: Sym = Sym::Lit("DOT", ".");
 pub const CSI: Sym = Sym::Lit("CSI", "\x1b[1m");
 pub const CSI2: Sym = Sym::Lit("CSI2", "\x1b[38;5;9m");
+/// CSI whose final byte is not a letter (a key code such as Delete)
+pub const CSIT: Sym = Sym::Lit("CSIT", "\x1b[3~");
 pub const OSB: Sym = Sym::Lit("OSB", "\x1b]8;;u\x07");
 pub const OSS: Sym = Sym::Lit("OSS", "\x1b]8;;u\x1b\\");
 /// OSC hyperlink whose URL contains a hyphen between alphanumerics (realistic: "https://my-site.org")
